@@ -423,6 +423,25 @@ def suite_transfer(rng, tier, n_sessions=None, with_ext=False):
                 continue_pdu(s, rng, pdu, s.ops[i]["reg"], lens[k] - first, big=lens[k] > 3000, on_packet=on_packet)
             s.prov(maxpdu, 0xEE)
         out.append(s)
+    # receivers with as many slots as there are frag ids, or more: the slot is the frag id itself
+    for slots in (255, 256, 257, 300, 1000):
+        for fid in (0, 1, 254, 255):
+            s = Session("xfer-slots-%d-%d%s" % (slots, fid, "-ext" if with_ext else ""))
+            s.enc("new")
+            s.dec_new(slots, 40, None)
+            s.prov(40, 0xEE)
+            s.prov(40, 0xEE)
+            pdu = bs_gen(slots + fid, 40)
+            exts = [(0x0301, b"\x01\x02\x03\x04")] if with_ext else None
+            i = s.encap(pdu, fid, 0x0800, LBL_A6, bs_const(0xA5, 30), exts=exts)
+            s.peek_if("p:%d" % s.ops[i]["reg"], of=i)
+            s.decap_if("p:%d" % s.ops[i]["reg"], of=i)
+            chain = s.ops[i]["reg"]
+            for bl in (12, 12, 100):
+                j = s.encap_frag(pdu, chain, bs_const(0xA5, bl), cout=chain)
+                s.peek_if("p:%d" % s.ops[j]["reg"], of=j)
+                s.decap_if("p:%d" % s.ops[j]["reg"], of=j)
+            out.append(s)
     return out
 
 
